@@ -15,7 +15,6 @@ Max2(a, b) == IF a >= b THEN a ELSE b
 Sub(s, a, b) == IF b < a THEN <<>> ELSE [i \in 1..(b - a + 1) |-> s[a + i - 1]]
 Drop(s, n) == Sub(s, n + 1, Len(s))
 Take(s, n) == Sub(s, 1, Min2(n, Len(s)))
-Last(s) == s[Len(s)]
 Rep(x, n) == [i \in 1..n |-> x]
 
 \* concatenation of a sequence of sequences
